@@ -5,7 +5,7 @@ import re._parser as sre_parse
 
 from sa import astq
 from sa.astq import norm_text, affine
-from sa.idioms import guarded, reach_under, attr_truth, combine
+from sa.idioms import guarded, reach_under, attr_truth, combine, none_test
 from sa.project import dotted, walk_local, AnalysisError
 
 EXPLANATION = (
@@ -141,18 +141,93 @@ def _assigns_to(f, name):
         isinstance(t, ast.Name) and t.id == name for t in astq.attr_targets(a))]
 
 
+def _is_fk(call):
+    """call(..., **format_kwargs)"""
+    return any(k.arg is None and norm_text(k.value) == 'format_kwargs' for k in call.keywords)
+
+
+def _classify_argv(e):
+    """Shape of one expansion of the returned vector ->
+    (shell?, 'none'|'str'|'list', problem or None)."""
+    def cmd_words(x):
+        if isinstance(x, ast.Call) and dotted(x.func) == 'shlex.split' and x.args:
+            a = x.args[0]
+            px = astq.kwarg(x, 'posix')
+            if px is not None and norm_text(px) not in ('not IS_WINDOWS', 'True'):
+                return 'the command is not split by POSIX shell rules'
+            if isinstance(a, ast.Call) and astq.call_last(a) == 'replace_gnu_args' and a.args \
+                    and norm_text(a.args[0]) == 'self.cmd' and _is_fk(a):
+                return True
+            return 'the command line is split before / without variable substitution'
+        return None
+
+    def str_args(x):
+        return isinstance(x, ast.Call) and dotted(x.func) == 'shlex.split' and x.args and \
+            isinstance(x.args[0], ast.Call) and astq.call_last(x.args[0]) == 'replace_gnu_args' \
+            and x.args[0].args and norm_text(x.args[0].args[0]) == 'self.args' and \
+            _is_fk(x.args[0])
+
+    def list_args(x):
+        return isinstance(x, ast.ListComp) and len(x.generators) == 1 and \
+            norm_text(x.generators[0].iter) == 'self.args' and not x.generators[0].ifs and \
+            isinstance(x.elt, ast.Call) and astq.call_last(x.elt) == 'replace_gnu_args' and \
+            x.elt.args and isinstance(x.elt.args[0], ast.Name) and \
+            x.elt.args[0].id == norm_text(x.generators[0].target) and _is_fk(x.elt)
+
+    def base(x):
+        c = cmd_words(x)
+        if c is True:
+            return 'none', None
+        if isinstance(c, str):
+            return None, c
+        if isinstance(x, ast.BinOp) and isinstance(x.op, ast.Add):
+            c = cmd_words(x.left)
+            if c is True:
+                if str_args(x.right):
+                    return 'str', None
+                if list_args(x.right):
+                    return 'list', None
+                return None, 'the arguments are re-split, joined, filtered or not substituted'
+            if isinstance(c, str):
+                return None, c
+            return None, 'the command words do not come first'
+        return None, 'unrecognised argv construction'
+
+    def shell(x):
+        # [' '.join(quote(a) for a in <base>)] (+ shell_args words)
+        if isinstance(x, ast.BinOp) and isinstance(x.op, ast.Add):
+            inner = shell(x.left)
+            if inner is not None:
+                return inner
+        if isinstance(x, ast.List) and len(x.elts) == 1 and isinstance(x.elts[0], ast.Call) and \
+                norm_text(x.elts[0].func) == "' '.join" and x.elts[0].args and \
+                isinstance(x.elts[0].args[0], (ast.GeneratorExp, ast.ListComp)):
+            g = x.elts[0].args[0]
+            quoted = isinstance(g.elt, ast.Call) and dotted(g.elt.func) in ('quote', 'shlex.quote') \
+                and len(g.generators) == 1 and not g.generators[0].ifs and \
+                norm_text(g.elt.args[0]) == norm_text(g.generators[0].target)
+            kind, prob = base(g.generators[0].iter)
+            if not quoted:
+                prob = prob or 'shell command string is built without quoting every word'
+            return kind, prob
+        return None
+    sh = shell(e)
+    if sh is not None:
+        return True, sh[0], sh[1]
+    kind, prob = base(e)
+    return False, kind, prob
+
+
 def r2(run, ctx):
     run.rule('R2', 'argument boundaries in format_args')
+    from sa.dataflow import reaching_defs
     f = ctx.fn(P + 'format_args')
     cfg = ctx.cfg(f)
-    rets = [n for n in ctx.live_nodes(f) if n.kind == 'stmt' and isinstance(n.ast, ast.Return)]
-    run.check('R2', len(rets) == 1 and norm_text(rets[0].ast.value) == 'args',
-              'format_args returns the built vector', f, rets[0].ast if rets else f.node)
-    asg = [n for n in ctx.live_nodes(f) if n.kind == 'stmt' and isinstance(n.ast, ast.Assign) and
-           any(isinstance(t, ast.Name) and t.id == 'args' for t in n.ast.targets)]
-    aug = [n for n in ctx.live_nodes(f) if n.kind == 'stmt' and isinstance(n.ast, ast.AugAssign)
-           and isinstance(n.ast.target, ast.Name) and n.ast.target.id == 'args']
-    run.count('R2', len(asg), 3, 'assignments building the vector')
+    rd = reaching_defs(ctx, f)
+    rets = [n for n in ctx.live_nodes(f) if n.kind == 'stmt' and isinstance(n.ast, ast.Return)
+            and n.ast.value is not None]
+    if not run.need('R2', rets, 'format_args returns the built vector', f):
+        return
 
     def is_str_args(e):
         if isinstance(e, ast.Call) and dotted(e.func) == 'isinstance' and \
@@ -161,83 +236,51 @@ def r2(run, ctx):
         return None
 
     def has_args(e):
-        if isinstance(e, ast.Compare) and norm_text(e.left) == 'self.args' and \
-                isinstance(e.ops[0], ast.IsNot):
-            return True
-        return None
-    str_branch = [n for n in asg if guarded(cfg, n, is_str_args, True)]
-    list_branch = [n for n in asg if guarded(cfg, n, is_str_args, False)]
-    ok = run.need('R2', str_branch, 'string-args branch', f)
-    ok &= run.need('R2', list_branch, 'list-args branch', f)
-    if ok:
-        for n in str_branch:
-            v = n.ast.value
-            good = isinstance(v, ast.Call) and dotted(v.func) == 'shlex.split' and v.args and \
-                isinstance(v.args[0], ast.Call) and astq.call_last(v.args[0]) == 'replace_gnu_args' \
-                and norm_text(v.args[0].args[0]) == 'self.args'
-            run.check('R2', good, 'a string `args` is substituted, then split by shell quoting '
-                      'rules', f, n.ast, 'string arguments are not split with shlex after '
-                      'substitution: %s' % norm_text(v))
-        for n in list_branch:
-            v = n.ast.value
-            good = isinstance(v, ast.ListComp) and len(v.generators) == 1 and \
-                norm_text(v.generators[0].iter) == 'self.args' and not v.generators[0].ifs and \
-                isinstance(v.elt, ast.Call) and astq.call_last(v.elt) == 'replace_gnu_args' and \
-                isinstance(v.elt.args[0], ast.Name) and \
-                v.elt.args[0].id == norm_text(v.generators[0].target)
-            run.check('R2', good, 'list `args` are kept element by element (substituted, never '
-                      'split or joined)', f, n.ast, 'list arguments are re-split, joined, filtered '
-                      'or not substituted: %s' % norm_text(v))
-    # argv = shlex.split(cmd) + args
-    concat = [n for n in asg if isinstance(n.ast.value, ast.BinOp) and
-              isinstance(n.ast.value.op, ast.Add)]
-    plain = [n for n in asg if isinstance(n.ast.value, ast.Call) and
-             dotted(n.ast.value.func) == 'shlex.split' and n.ast.value.args and
-             norm_text(n.ast.value.args[0]) == 'cmd']
-    if run.need('R2', concat, 'argv = cmd words + args', f) and \
-            run.need('R2', plain, 'argv = cmd words (no args)', f):
-        for n in concat:
-            v = n.ast.value
-            good = isinstance(v.left, ast.Call) and dotted(v.left.func) == 'shlex.split' and \
-                norm_text(v.left.args[0]) == 'cmd' and norm_text(v.right) == 'args'
-            run.check('R2', good, 'the command words come first, then the arguments', f, n.ast,
-                      'argv is built as %s' % norm_text(v))
-            run.check('R2', guarded(cfg, n, has_args, True), 'args are appended only when given',
-                      f, n.ast)
-        for n in plain:
-            run.check('R2', guarded(cfg, n, has_args, False), 'without args argv is the command '
-                      'words', f, n.ast)
-        for n in concat + plain:
-            call = n.ast.value.left if isinstance(n.ast.value, ast.BinOp) else n.ast.value
-            px = astq.kwarg(call, 'posix')
-            run.check('R2', px is None or norm_text(px) in ('not IS_WINDOWS', 'True'),
-                      'posix splitting rules', f, n.ast)
-    # cmd is the substituted one
-    cm = [a for a in _assigns_to(f, 'cmd')]
-    run.check('R2', len(cm) == 1 and isinstance(cm[0].value, ast.Call) and
-              astq.call_last(cm[0].value) == 'replace_gnu_args' and
-              norm_text(cm[0].value.args[0]) == 'self.cmd' and
-              any(k.arg is None and norm_text(k.value) == 'format_kwargs'
-                  for k in cm[0].value.keywords),
-              'cmd is substituted with the full table before it is split', f,
-              cm[0] if cm else f.node, 'the command line is split before / without variable '
-              'substitution')
-    # shell: one string, every word quoted
-    sh = [n for n in asg if guarded(cfg, n, lambda e: True if norm_text(e) == 'self.shell' else None,
-                                    True)]
-    if run.need('R2', sh, 'shell branch', f):
-        v = sh[0].ast.value
-        good = isinstance(v, ast.List) and len(v.elts) == 1 and isinstance(v.elts[0], ast.Call) \
-            and norm_text(v.elts[0].func) == "' '.join" and \
-            isinstance(v.elts[0].args[0], (ast.GeneratorExp, ast.ListComp)) and \
-            norm_text(v.elts[0].args[0].elt) == 'quote(arg)' and \
-            norm_text(v.elts[0].args[0].generators[0].iter) == 'args'
-        run.check('R2', good, 'with shell the words are quoted and joined into one string', f,
-                  sh[0].ast, 'shell command string is built without quoting every word: %s'
-                  % norm_text(v))
-    run.check('R2', all(dotted(n.ast.value.func if isinstance(n.ast.value, ast.Call) else None)
-                        != 'str.split' for n in asg), 'no plain str.split is used', f, f.node)
-    for n in asg + aug:
+        r = none_test(e, 'self.args')
+        return None if r is None else (not r)
+
+    def assume(pred, value):
+        def a(e):
+            r = pred(e)
+            return None if r is None else (r == value)
+        return a
+    kinds = set()
+    n_alt = 0
+    for ret in rets:
+        for alt in rd.expand(ret, ret.ast.value, stop=('format_kwargs',)):
+            n_alt += 1
+            is_shell, kind, prob = _classify_argv(alt.expr)
+            site = alt.used[0].ast if alt.used else ret.ast
+            if prob or kind is None:
+                run.fail('R2', f, site, '%s: argv can be %s' % (prob or 'unrecognised argv',
+                                                                alt.text()[:200]),
+                         construct='argv shape: %s' % (prob or 'unrecognised'))
+                continue
+            run.ok('R2', 'argv shape %s%s is well formed' % ('shell+' if is_shell else '', kind),
+                   f.where(site))
+            kinds.add((is_shell, kind))
+            # each shape only under its own condition
+            run.check('R2', not rd.feasible(alt, attr_truth('shell', not is_shell)),
+                      'words are quoted and joined exactly when shell is set (%s)' % kind, f, site,
+                      'the %s form of argv can be used %s shell' % (
+                          'quoted' if is_shell else 'plain', 'without' if is_shell else 'with'),
+                      construct='shell form %s/%s' % (is_shell, kind))
+            run.check('R2', not rd.feasible(alt, assume(has_args, kind == 'none')),
+                      'args are appended exactly when given (%s)' % kind, f, site,
+                      construct='args presence %s/%s' % (is_shell, kind))
+            if kind in ('str', 'list'):
+                run.check('R2', not rd.feasible(alt, assume(is_str_args, kind != 'str')),
+                          'string args are shlex-split, list args kept element by element (%s)'
+                          % kind, f, site, 'a %s `args` is handled by the %s branch' % (
+                              'list' if kind == 'str' else 'string', kind),
+                          construct='args type %s/%s' % (is_shell, kind))
+    run.count('R2', n_alt, 6, 'argv expansions')
+    for want in [(False, 'none'), (False, 'str'), (False, 'list'),
+                 (True, 'none'), (True, 'str'), (True, 'list')]:
+        run.need('R2', [1] if want in kinds else [], 'argv shape %s%s' % (
+            'shell+' if want[0] else '', want[1]), f)
+    # no whitespace splitting anywhere on the way
+    for n in ctx.live_nodes(f):
         for c in n.calls():
             if astq.call_last(c) == 'split' and dotted(c.func) != 'shlex.split':
                 run.fail('R2', f, n.ast, 'arguments are split on whitespace instead of by shell '
@@ -294,6 +337,20 @@ def _const_str(ctx, mod, node, depth=0):
         return node.value
     if isinstance(node, ast.Name) and node.id in mod.assigns:
         return _const_str(ctx, mod, mod.assigns[node.id], depth + 1)
+    if isinstance(node, ast.JoinedStr):
+        out = ''
+        for v in node.values:
+            if isinstance(v, ast.Constant):
+                out += str(v.value)
+            elif isinstance(v, ast.FormattedValue) and v.format_spec is None and \
+                    v.conversion in (-1, ord('s')):
+                part = _const_str(ctx, mod, v.value, depth + 1)
+                if part is None:
+                    return None
+                out += part
+            else:
+                return None
+        return out
     if isinstance(node, ast.BinOp) and isinstance(node.op, ast.Add):
         l, r = _const_str(ctx, mod, node.left, depth + 1), _const_str(ctx, mod, node.right, depth + 1)
         return None if l is None or r is None else l + r
